@@ -13,7 +13,7 @@ EXTENDS UpdateError, TraceUtil, Integers
 VARIABLES l, cfg, phase, cur
 tvars == <<l, cfg, phase, cur>>
 
-NoCfg == [mode |-> "none", pt |-> "ebgp", taw |-> TRUE, base |-> "v4"]
+NoCfg == [mode |-> "none", pt |-> "ebgp", taw |-> TRUE, base |-> "v4", id |-> 0]
 NoCur == [faults |-> <<>>, good |-> [x \in {"_"} |-> ""],
           obs |-> [sess |-> "up", code |-> -1, sub |-> -1, hand |-> "none"]]
 
@@ -23,7 +23,8 @@ IsEvent(e) == l <= TLen /\ Trace[l].ev = e /\ l' = l + 1
 
 TReset == /\ IsEvent("Reset")
           /\ Trace[l].mode \in {"e2e", "wb"} /\ Trace[l].pt \in PeerTypes /\ Trace[l].base \in Bases
-          /\ cfg' = [mode |-> Trace[l].mode, pt |-> Trace[l].pt, taw |-> Trace[l].taw, base |-> Trace[l].base]
+          /\ cfg' = [mode |-> Trace[l].mode, pt |-> Trace[l].pt, taw |-> Trace[l].taw, base |-> Trace[l].base,
+                     id |-> Trace[l].id]
           /\ phase' = "reset" /\ cur' = NoCur
 
 (* the preparation must have worked, else the harness (not the speaker) is at fault: no action *)
@@ -84,20 +85,26 @@ C06_NeverWeaker == Judged => NeverWeakerFor(FS)
 (* treat-as-withdraw removes EVERY prefix the message names from that peer's routes: the announced
    ones (NLRI, MP_REACH_NLRI) and the explicitly withdrawn ones; a route installed earlier for such a
    prefix must not survive *)
-TawRemovesAllFor(fs) ==
-  ((Lo(fs, Pt, Taw) = Withdraw \/ Obs.hand = "withdraw") /\ ~ObsReset) => AllGone(Named)
-C06_TawRemovesAll == Judged => TawRemovesAllFor(FS)
+TawRemovesAllFor(fs, excused) ==
+  (/\ Lo(fs, Pt, Taw) = Withdraw \/ Obs.hand = "withdraw"
+   /\ ~ObsReset
+   /\ NoNewFor(Ann(cfg.base))) => AllGone(Named \ excused)
+C06_TawRemovesAll == Judged => TawRemovesAllFor(FS, {})
 
 (* no installed or propagated route carries an attribute that arrived malformed: for every faulted
    attribute type, a route of the new message either lacks it or carries the valid FIRST occurrence
    (RFC 7606 3.g); no attribute type occurs twice *)
+(* RFC 6793 4.2.3: AS_PATH / AGGREGATOR are legitimately rebuilt from AS4_PATH / AS4_AGGREGATOR when
+   those are in the message: their installed value is then not comparable with what was sent *)
+Rebuilt(k) == \/ (k = "t2" /\ \E f \in FS : f.a = "AS4_PATH")
+              \/ (k = "t7" /\ \E f \in FS : f.a = "AS4_AGGREGATOR")
 NotMalformed(v, fs) ==
   /\ v.ndup = 0
   /\ \A f \in Real(fs, Pt) :
        LET k == TypeKey(f.a, f.k) IN
        (k # "none" /\ Has2(v.attrs, k)) =>
           /\ Has2(Good, k)
-          /\ (v.v # "n2" => v.attrs[k] = Good[k])
+          /\ (v.v # "n2" /\ ~Rebuilt(k)) => v.attrs[k] = Good[k]
 C06_NeverInstalledMalformed == Judged => \A pv \in NewViews : NotMalformed(pv[2], FS)
 
 (* no installed route lacks a mandatory attribute: ORIGIN, AS_PATH, NEXT_HOP (MP next hop for v6) *)
@@ -129,32 +136,67 @@ C06_WellFormedNotPenalised ==
      /\ \A p \in Ann(cfg.base) : \A v \in Vs(p) :
           /\ St(v) = "new"
           /\ (v.v # "n2") => (\A k \in (Kept \cap DOMAIN Good) :
-                                 \/ (k = "t5" /\ v.v = "glob" /\ Pt # "ibgp")   \* stripped on ingress
+                                 \/ (k = "t5" /\ Pt # "ibgp")   \* LOCAL_PREF of a non-iBGP peer is stripped on ingress
                                  \/ (Has2(v.attrs, k) /\ v.attrs[k] = Good[k]))
           /\ (v.v = "n2" /\ Has2(Good, "t99")) => Has2(v.attrs, "t99")
      /\ AllGone(Wd(cfg.base))
      /\ \A p \in AllPfx \ Named : \A v \in Vs(p) : St(v) = "old"
 
 ---------------------------------------------------------------------------
-(* KNOWN FINDING KF-C06-discard-masks-validation: when a decode-stage error of class discard /
-   treat-as-withdraw is present, the faults that only ValidateUpdateMsg finds (missing mandatory
-   attribute, bad ORIGIN / NEXT_HOP value, duplicate, unrecognised well-known, confederation
-   AS_PATH) are not seen.  The weakened invariants judge such a message by its other faults only. *)
+(* KNOWN FINDINGS (predicates in UpdateError.tla, section "KNOWN FINDING predicates"): the weakened
+   invariants judge a message by the faults the pinned speaker is not known to ignore (FSU), excuse
+   the prefixes it is known not to parse, and tolerate the one reset / the one subcode that are
+   recorded findings.  Outside the predicates they coincide with the strict invariants. *)
 IsMasked == Masked(FS, Pt, Taw)
 FSU      == Unmasked(FS, Pt, Taw)
 MaskedMissing == {TypeKey(f.a, f.k) : f \in {g \in FS \ FSU : g.k = "miss"}}
+MaskedDup == IsMasked /\ \E f \in FS : f.k = "dup"
 
 C06_NeverWeaker_KF   == Judged => NeverWeakerFor(FSU)
-C06_TawRemovesAll_KF == Judged => TawRemovesAllFor(FSU)
+(* a masked duplicate MP_REACH / MP_UNREACH: table.ProcessMessage uses the LAST one only *)
+MaskedMpDupPfx ==
+  (IF IsMasked /\ Has(FS, "MP_REACH", "dup") THEN {p \in Ann(cfg.base) : ~IsV4(p)} ELSE {})
+  \cup (IF IsMasked /\ Has(FS, "MP_UNREACH", "dup") THEN {p \in Wd(cfg.base) : ~IsV4(p)} ELSE {})
+C06_TawRemovesAll_KF == Judged => TawRemovesAllFor(FSU, UnparsedPfx(FS, cfg.base) \cup MaskedMpDupPfx)
 C06_NeverInstalledMalformed_KF ==
   Judged => \A pv \in NewViews :
-     IF IsMasked THEN NotMalformed([pv[2] EXCEPT !.ndup = 0], FSU) ELSE NotMalformed(pv[2], FS)
+     NotMalformed(IF MaskedDup THEN [pv[2] EXCEPT !.ndup = 0] ELSE pv[2], FSU)
 C06_MandatoryPresent_KF ==
   Judged => \A pv \in NewViews : (Mandatory(pv[1]) \ MaskedMissing) \subseteq DOMAIN pv[2].attrs
-C06_ResetOnlyIfCalledFor_KF == C06_ResetOnlyIfCalledFor
-C06_Code_KF == C06_Code
+C06_MandatoryLocalPref_KF == KF_LocalPref(FS) \/ C06_MandatoryLocalPref
+C06_ResetOnlyIfCalledFor_KF ==
+  Judged => ((ObsReset \/ Obs.code >= 0) => (ResetJustified(FS, Pt, Taw) \/ KF_As4Agg(FS)))
+C06_Code_KF ==
+  (Judged /\ ObsReset) =>
+     /\ Obs.code >= 0
+     /\ <<Obs.code, Obs.sub>> \in OkCodes(FS, Pt, Taw)
+                                 \cup (IF KF_As4Agg(FS) \/ KF_OriginCode(FS) THEN {AttrList} ELSE {})
+C06_WellFormedNotPenalised_KF == KF_As4Agg(FS) \/ C06_WellFormedNotPenalised
 
 ---------------------------------------------------------------------------
+(* triage (always TRUE): one line per judged message that fails some strict invariant, naming the
+   strict and the KF-weakened invariants it fails.  Lets the driver send only the failing traces
+   through the one-by-one violation / known-finding path of the framework. *)
+StrictInv == [C06_MandatoryLocalPref |-> C06_MandatoryLocalPref, C06_NeverWeaker |-> C06_NeverWeaker,
+              C06_TawRemovesAll |-> C06_TawRemovesAll,
+              C06_NeverInstalledMalformed |-> C06_NeverInstalledMalformed,
+              C06_MandatoryPresent |-> C06_MandatoryPresent,
+              C06_ResetOnlyIfCalledFor |-> C06_ResetOnlyIfCalledFor, C06_Code |-> C06_Code,
+              C06_ResetRemovesAll |-> C06_ResetRemovesAll,
+              C06_WellFormedNotPenalised |-> C06_WellFormedNotPenalised]
+KFInv == [C06_MandatoryLocalPref |-> C06_MandatoryLocalPref_KF, C06_NeverWeaker |-> C06_NeverWeaker_KF,
+          C06_TawRemovesAll |-> C06_TawRemovesAll_KF,
+          C06_NeverInstalledMalformed |-> C06_NeverInstalledMalformed_KF,
+          C06_MandatoryPresent |-> C06_MandatoryPresent_KF,
+          C06_ResetOnlyIfCalledFor |-> C06_ResetOnlyIfCalledFor_KF, C06_Code |-> C06_Code_KF,
+          C06_ResetRemovesAll |-> C06_ResetRemovesAll,
+          C06_WellFormedNotPenalised |-> C06_WellFormedNotPenalised_KF]
+FailsOf(S) == {n \in DOMAIN S : ~S[n]}
+Triage == (Judged /\ FailsOf(StrictInv) # {}) =>
+             PrintT("VPOUT " \o ToJson([triage |-> [id |-> cfg.id, strict |-> FailsOf(StrictInv),
+                                                      kf |-> FailsOf(KFInv),
+                                                      tags |-> KFTags(FS, Pt, Taw)]]))
+
 (* informational: the recorded handling class is the one the mechanism layer predicts (wb only) *)
 ClassName(c) == CASE c = None -> "none" [] c = Discard -> "discard" [] c = Withdraw -> "withdraw" [] OTHER -> "reset"
 Conf_Handling == (Judged /\ cfg.mode = "wb") => Obs.hand = ClassName(MechClass(FS, Pt, Taw, FALSE))
